@@ -278,6 +278,8 @@ impl FeoxStore {
                     ),
                 };
 
+                #[cfg(feoxdb_verif)]
+                crate::verif::emit("pub", stored_key, timestamp, expiry, 2);
                 old_record.link_successor(&new_record);
                 old_record.refcount.store(0, Ordering::Release);
                 *current = Arc::clone(&new_record);
